@@ -572,3 +572,57 @@ def c07_left_right_dvs(rng, tier):
             f["finding"] = "F6"
         return [f]
     return []
+
+
+# ---------------------------------------------------------------------------------------
+# C03  problem-level histories on a live AeroPoint
+# ---------------------------------------------------------------------------------------
+@oracle("C03", "aero_point_history")
+def c03_aero_history(rng, tier):
+    surfaces = _aero_config(rng, tier, ns=int(rng.choice([1, 2])))
+    for s in surfaces:
+        s["with_wave"] = bool(rng.integers(2)); s["with_viscous"] = True
+    ofs = ["pt.CL", "pt.CD", "pt.CM"]
+    wrt = ["alpha", "Mach_number", "v", "rho", "re"] + [s["name"] + "_def_mesh" for s in surfaces]
+
+    def point():
+        return _flow(rng, Mach_number=float(rng.uniform(0.3, 0.93)), alpha=float(rng.uniform(-5, 10)))
+
+    def setpoint(prob, f):
+        for k in ("alpha", "Mach_number", "v", "rho", "re", "cg"):
+            prob.set_val(k, f[k])
+
+    def evaluate(prob):
+        with quiet():
+            prob.run_model()
+            J = prob.compute_totals(of=ofs, wrt=wrt, return_format="array")
+        return np.concatenate([np.atleast_1d(prob.get_val(o)).ravel() for o in ofs]), np.array(J)
+    nops = int(rng.integers(2, 5)) if tier == "quick" else int(rng.integers(3, 9))
+    pts = [point() for _ in range(nops)]
+    live = pipelines.build_aero_point(surfaces, pts[0])
+    seq = []
+    for f in pts:
+        setpoint(live, f)
+        oL, JL = evaluate(live); seq.append("set,run,totals")
+        if rng.uniform() < 0.4:
+            with quiet():
+                live.compute_totals(of=ofs, wrt=wrt); seq.append("totals")
+        if rng.uniform() < 0.25:
+            with quiet():
+                live.check_partials(out_stream=None, compact_print=True); seq.append("check_partials")
+            oL, JL = evaluate(live)
+    fresh = pipelines.build_aero_point(surfaces, pts[-1])
+    oF, JF = evaluate(fresh)
+    out = []
+    case = dict(shapes=[list(s["mesh"].shape) for s in surfaces], sequence=seq, last_point={k: pts[-1][k] for k in ("alpha", "Mach_number")})
+    if relerr(oL, oF) > 1e-10:
+        out.append(_fail("outputs of a live AeroPoint after a history differ from a fresh problem", oL, oF, **case))
+    sc = max(np.max(np.abs(JF)), 1e-300)
+    # OpenMDAO 3.45's check_partials leaves its finite-difference approximation in the storage of sub-Jacobians that
+    # were declared constant (reproduced on a 5-line component that has nothing to do with OAS): after a check_partials
+    # the totals of *any* OpenMDAO model differ from a fresh problem at finite-difference accuracy.  That is the
+    # framework's doing, so histories containing check_partials are compared at 1e-5 instead of 1e-8.
+    jtol = 1e-5 if "check_partials" in seq else 1e-8
+    if np.max(np.abs(JL - JF)) > jtol * sc:
+        out.append(_fail("total derivatives of a live AeroPoint after a history differ from a fresh problem", float(np.max(np.abs(JL - JF))), 0.0, **case))
+    return out
